@@ -17,7 +17,12 @@ def parseRule (s : String) : Option (Option AllowList) :=
       | _ => none
     let methods ← if ms = "all" then some none else ((ms.splitOn ";").mapM bytesOfHex).map some
     let headers ← if hs = "-" then some [] else (hs.splitOn ";").mapM bytesOfHex
-    pure (some ⟨← parseBool aa, origins, methods, headers, ← ma.toNat?⟩)
+    -- `<seconds>` or `<seconds>.<milliseconds, three digits>`
+    let (secs, nanos) ← match ma.splitOn "." with
+      | [sec] => do pure (← sec.toNat?, 0)
+      | [sec, ms] => do pure (← sec.toNat?, (← ms.toNat?) * 1000000)
+      | _ => none
+    pure (some ⟨← parseBool aa, origins, methods, headers, secs, nanos⟩)
   | _ => none
 
 def showList (l : List Bytes) : String := ";".intercalate (l.map hexOfBytes)
